@@ -13,7 +13,7 @@ func init() { register("C02", "exploration", runC02) }
 // C02: what is uploaded is what is served. Differential monitor: generated upload / overwrite / delete programs over
 // a hostile name universe against the reference object model; the whole store is dumped and compared after every step.
 func runC02(run *common.Run) {
-	run.Rule = "case = one generated program (30-80 steps: uploads via media / multipart / resumable with random chunkings, status queries, overlapping re-sends, PUT and POST chunks, gzip request bodies, declared MD5 right/wrong/malformed; after a resumable finalisation was rejected for its declared MD5 the client retries 1-3 times on the SAME session - the rejected request once more, the same bytes from offset 0, a bodiless finalising request, other non-matching bytes from offset 0 - which must never be acknowledged (308 or 4xx incl. 404/410) and must change nothing, and then possibly sends the bytes that do match, which is either refused or an upload of exactly those bytes; overwrites; deletes of live and absent names; metadata patches that send back a full, possibly stale, resource from an earlier GET and must leave content, size and MD5 as uploaded; PATCH bodies with a JSON type error that must be refused without a trace) over 2 buckets and 6 names + 2 decoys drawn from the hostile name universe, run on one store (memory or file); after every step the whole store is dumped (bucket GET, full listing, metadata GET and media GET of every universe name; all three URL forms for the name just touched, one rotating form for the others) and compared with the reference model. Non-trivial = the program overwrote a live object, deleted a live object, completed a resumable upload that needed >= 2 chunk requests and had an upload rejected for its MD5; distinct by hash of the executed step log x store."
+	run.Rule = "case = one generated program (30-80 steps: uploads via media / multipart / resumable with random chunkings, status queries, overlapping re-sends, PUT and POST chunks, gzip request bodies, declared MD5 right/wrong/malformed; after a resumable finalisation was rejected for its declared MD5 the client retries 1-3 times on the SAME session - the rejected request once more, the same bytes from offset 0, a bodiless finalising request, other non-matching bytes from offset 0 - which must never be acknowledged (308 or 4xx incl. 404/410) and must change nothing, and then possibly sends the bytes that do match, which is either refused or an upload of exactly those bytes; overwrites; deletes of live and absent names; metadata patches that send back a full, possibly stale, resource from an earlier GET and must leave content, size and MD5 as uploaded; PATCH bodies with a JSON type error that must be refused without a trace; one upload in eight carries a real gzip stream as its content, mostly declared with contentEncoding gzip in multipart / resumable metadata or by a later PATCH; 'decoy' steps address a delete (mostly), a patch, a patch with a type error, a copy-from or a compose-with-source to a name under which nothing was ever stored: a '/'-separated prefix of a stored name with and without a trailing slash ('a/b', 'a/b/' and 'a', 'a/' while 'a/b/c' is stored), a stored name continued by '/', a never-written decoy of the dump universe - never acknowledged, nothing may change, in particular not the objects below the prefix; 'reads' steps send metadata GET, media GETs through every URL form with and without 'Accept-Encoding: gzip' and a listing for one object - the dump after a step that only read must equal the dump before it) over 2 buckets and 6 names + 2 decoys drawn from the hostile name universe, run on one store (memory or file); after every step the whole store is dumped (bucket GET, full listing, metadata GET and media GET of every universe name; all three URL forms for the name just touched, one rotating form for the others) and compared with the reference model. Non-trivial = the program overwrote a live object, deleted a live object, completed a resumable upload that needed >= 2 chunk requests and had an upload rejected for its MD5; distinct by hash of the executed step log x store."
 	run.Assumptions = []string{
 		"reference object model written from the statement and the public JSON API; generations are learned from responses",
 		"resumable chunks are sent to the session URL with PUT; POST only to the Location URL the emulator itself issued (well-formed names)",
@@ -25,6 +25,9 @@ func runC02(run *common.Run) {
 		"file store: only names representable as files next to the live names are written or deleted (DESIGN C02/C09); every universe name is still read",
 		"names altered by path cleaning and, for the public URL form, names holding a b/<x>/o segment run are outside the generated space",
 		"listing is compared as a set here (order and paging are C11)",
+		"a delete of a name under which nothing is stored and that is only a '/'-prefix of stored names must not be acknowledged and must change nothing; which error status it gets is not demanded (the statement does not say; a store without directories says 404). Deletes of other absent names: 404",
+		"an object stored with contentEncoding gzip (its bytes are a gzip stream) is served as stored, byte for byte, to a client that sends 'Accept-Encoding: gzip'; without that header the stored bytes or their decompressed form (decompressive transcoding of the public API) are accepted. contentEncoding is compared like the other user-settable metadata; the harness never declares gzip for bytes that are no gzip stream",
+		"every media GET of every dump is sent with or without 'Accept-Encoding: gzip' (drawn per step, name and form); the client never adds that header by itself and never decompresses; dumps are compared on the entity (the response's own Content-Encoding undone)",
 		"a resource without a size field is read as size 0 (the JSON encoding omits zero values)",
 	}
 	j := common.NewJournal("C02")
@@ -63,8 +66,8 @@ func c02Program(run *common.Run, idx int, store string, universe []string) {
 	}
 	pool := append([]string(nil), universe...)
 	common.Shuffle(r, pool)
-	o := &progOpts{Buckets: []string{"vb1", "vb2"}, Names: pool[:6], FileRules: store == "file", MD5Pct: 45, BigPerMille: 12, ExtraPct: 20,
-		W: map[string]int{"upload": 40, "overwrite": 22, "delete": 22, "delete_absent": 6, "patch_full": 5, "patch_bad": 3, "bucket_cycle": 3, "noop": 4}}
+	o := &progOpts{Buckets: []string{"vb1", "vb2"}, Names: pool[:6], FileRules: store == "file", MD5Pct: 45, BigPerMille: 12, ExtraPct: 20, GzipObjPct: 12,
+		W: map[string]int{"upload": 40, "overwrite": 22, "delete": 22, "delete_absent": 6, "patch": 3, "patch_full": 5, "patch_bad": 3, "bucket_cycle": 3, "noop": 3, "reads": 5, "decoy": 9}}
 	for _, b := range o.Buckets {
 		if msg := e.createBucket(b); msg != "" {
 			fail(msg)
